@@ -169,7 +169,10 @@ def run_pair(job):
         rt = bool(ca == passes.parse_prog(job['prog'], generate_jaqal_program(ca)))
     except Exception:
         rt = False
-    return {'id': job['id'], 'kind': 'eq', 'what': job['what'], 'ta': ta, 'tb': tb, 'a': oa['prog'], 'b': ob['prog'],
+    # the programs whose declarations and meaning the specification compares are the MODEL programs the two texts were
+    # rendered from (that the parser denotes them is C02 / C07): a count the builder silently changes must not hide a difference
+    return {'id': job['id'], 'kind': 'eq', 'what': job['what'], 'ta': ta, 'tb': tb,
+            'a': passes.compress(job['ma']) if 'ma' in job else oa['prog'], 'b': passes.compress(job['mb']) if 'mb' in job else ob['prog'],
             'eq_ab': bool(ca == cb), 'eq_ba': bool(cb == ca), 'eq_aa': bool(ca == ca), 'eq_bb': bool(cb == cb),
             'rt_a': rt, 'same_tokens': ta == tb}
 
@@ -188,13 +191,13 @@ def main(tier):
             rep.cov['exhaustive'] = False
         for n, p in enumerate(progs):
             ta = render.render_prog(p)
-            jobs.append({'id': '%s/%d/same' % (name, n), 'prog': p, 'ta': ta, 'tb': ta, 'what': 'identical text'})
+            jobs.append({'id': '%s/%d/same' % (name, n), 'prog': p, 'ta': ta, 'tb': ta, 'what': 'identical text', 'ma': p, 'mb': p})
             for m, (what, q) in enumerate(mutants(p)):
-                jobs.append({'id': '%s/%d/m%d' % (name, n, m), 'prog': p, 'ta': ta, 'tb': render.render_prog(q), 'what': what})
+                jobs.append({'id': '%s/%d/m%d' % (name, n, m), 'prog': p, 'ta': ta, 'tb': render.render_prog(q), 'what': what, 'ma': p, 'mb': q})
                 if (n + m) % 5 == 0:
-                    jobs.append({'id': '%s/%d/m%d/cm' % (name, n, m), 'prog': p, 'ta': ta, 'tb': render.render_prog(q), 'what': what, 'wrap': True})
+                    jobs.append({'id': '%s/%d/m%d/cm' % (name, n, m), 'prog': p, 'ta': ta, 'tb': render.render_prog(q), 'what': what, 'wrap': True, 'ma': p, 'mb': q})
             for m, (what, qa, qb) in enumerate(twin_pairs(p)):
-                jobs.append({'id': '%s/%d/t%d' % (name, n, m), 'prog': p, 'ta': render.render_prog(qa), 'tb': render.render_prog(qb), 'what': what})
+                jobs.append({'id': '%s/%d/t%d' % (name, n, m), 'prog': p, 'ta': render.render_prog(qa), 'tb': render.render_prog(qb), 'what': what, 'ma': qa, 'mb': qb})
     rep.phase('tlc_enumeration')
     recs = [r for r in core.pool_map(run_pair, jobs, chunksize=100) if r['kind'] == 'eq']
     rep.phase('replay')
